@@ -182,27 +182,36 @@ Section Fixed.
       destruct ((0 <? ni)%nat && negb (str_eqb ds s_core)); [destruct (nested_update L ds s2)|]; reflexivity.
   Qed.
 
+  Lemma write_path_out v k ds ents w : exists oc ids, snd (write_path v L k ds ents w) = HOBatch oc ids.
+  Proof.
+    unfold write_path. destruct ents; [cbn; eauto|].
+    destruct (run_ents L ds (wdata w) (e :: ents) (wid w)) as [[[[s1 oc] ids] ni] pd].
+    destruct oc; try (cbn; eauto; fail).
+    destruct (match k with None => commit_main s1 | Some k0 => commit_ctx (v_ctx v) k0 s1 end) as [s2 r].
+    destruct r; try (cbn; eauto; fail).
+    destruct ((0 <? ni)%nat && negb (str_eqb ds s_core)); [destruct (nested_update L ds s2)|]; cbn; eauto.
+  Qed.
+
+  Lemma wstep_out_shape op w :
+    match op with HNs _ => True | _ => match snd (wstep v_fixed L op w) with HONs _ => False | _ => True end end.
+  Proof.
+    destruct op; cbn [wstep]; try exact I.
+    - destruct (write_path_out v_fixed None ds ents w) as (oc & ids & ->). exact I.
+    - destruct (write_path_out v_fixed (Some k) ds ents w) as (oc & ids & ->). exact I.
+  Qed.
+
   Lemma snapshot_wrun ops : forall w fetched,
     handles (wns w) = hs_of fetched -> all_ctx fetched ->
     snapshot_ok fetched (ns_events (combine ops (snd (wrun v_fixed L ops w)))) = true.
   Proof.
     induction ops as [|op ops IH]; intros w fetched Hh Hall; cbn [wrun]; [reflexivity|].
-    pose proof (wstep_handles op w) as Hsame.
+    pose proof (wstep_handles op w) as Hsame. pose proof (wstep_out_shape op w) as Hshape.
     destruct (wstep v_fixed L op w) as [w1 o] eqn:Es.
     destruct (wrun v_fixed L ops w1) as [w2 os] eqn:Er. cbn [snd combine ns_events flat_map fst] in *.
     assert (Hos : os = snd (wrun v_fixed L ops w1)) by now rewrite Er.
-    destruct op; cbn [wstep] in Es.
-    2-6: (assert (Ho : match o with HONs _ => False | _ => True end)
-           by (first [ injection Es as <- <-; exact I
-                     | unfold write_path in Es; destruct ents;
-                       [injection Es as <- <-; exact I|];
-                       destruct (run_ents L ds (wdata w) (e :: ents) (wid w)) as [[[[s1 oc] ids] ni] pd];
-                       destruct oc; try (injection Es as <- <-; exact I);
-                       match type of Es with context [match ?c with _ => _ end] => destruct c as [s2 r] end;
-                       destruct r; try (injection Es as <- <-; exact I);
-                       destruct ((0 <? ni)%nat && negb (str_eqb ds s_core));
-                       [destruct (nested_update L ds s2)|]; injection Es as <- <-; exact I ]);
-          destruct o; try contradiction; cbn [app]; rewrite Hos; apply IH; [rewrite Hsame; exact Hh | exact Hall]).
+    destruct op.
+    all: try (destruct o; try contradiction; cbn [app]; rewrite Hos; apply IH; first [rewrite Hsame; exact Hh | exact Hall]; fail).
+    cbn [wstep] in Es.
     (* HNs *)
     destruct (ns_step (v_alias v_fixed) o0 (wns w)) as [n r] eqn:En. injection Es as <- <-.
     cbn [app wns]. clear Hsame.
@@ -253,7 +262,7 @@ Qed.
 Theorem agree_fixed_spec_core c : agree v_fixed c = true -> spec_core c = true.
 Proof.
   unfold agree, spec_core. destruct (c_conc c).
-  - destruct (o_conc c) as [|[p|p|]]; try discriminate; try reflexivity. cbn. discriminate.
+  - destruct (o_conc c) as [|[p|[p|p|]|]]; cbn; try discriminate; try reflexivity.
   - intros H. apply houts_eqb_eq in H. rewrite <- H. unfold predict.
     assert (HL : 1 <= L_go) by (unfold L_go; lia).
     destruct (wrun_good L_go HL (c_ops c) _ (wgood_setup L_go HL (c_dss c))) as (_ & H2 & H3).
